@@ -8,11 +8,13 @@ import (
 	"testing"
 
 	"github.com/gebn/bmc"
+	"github.com/gebn/bmc/pkg/ipmi"
 	"pgregory.net/rapid"
 
 	"verif/harness/evid"
 	"verif/harness/hx"
 	"verif/harness/ref"
+	"verif/harness/simbmc"
 )
 
 var ev *evid.E
@@ -103,6 +105,29 @@ func runCase(t *rapid.T, c hx.Creds) error {
 	}
 	for i := 0; i < n; i++ {
 		var call *hx.Call
+		if t != nil && rapid.IntRange(0, 2).Draw(t, "callerDefinedCommand") == 0 {
+			// a command of the caller's own with a request body of 0..200 bytes (Write
+			// FRU Data carries chunks like that): the BMC must receive exactly it
+			bl := int(rapid.Uint16().Draw(t, "bodyLen")) % 201
+			body := rapid.SliceOfN(rapid.Byte(), bl, bl).Draw(t, "body")
+			w.BMC.Fallback = func(b *simbmc.BMC, rx *simbmc.Rx) (byte, []byte) { return 0, []byte{byte(len(rx.Msg.Data))} }
+			cmd, got := hx.RawCommand("Write FRU Data", ipmi.Operation{Function: ipmi.NetworkFunctionStorageReq, Command: 0x12}, 0, body)
+			before := len(w.BMC.Log)
+			code, err := sess.SendCommand(ctx, cmd)
+			if err != nil || code != 0 {
+				return fmt.Errorf("caller-defined command with a %d-byte body (command %d on the session) failed: code %#x err %v; BMC problems: %v", bl, i+1, uint8(code), err, w.BMC.AllProblems())
+			}
+			rx := w.BMC.Log[before]
+			if len(w.BMC.Log) != before+1 || len(rx.Problems) > 0 || !rx.AuthOK || rx.Msg == nil || !bytes.Equal(rx.Msg.Data, body) {
+				return fmt.Errorf("caller-defined command with a %d-byte body: the BMC received %x (problems %v), want %x", bl, rx.Msg, rx.Problems, body)
+			}
+			if r := got(); len(r) != 1 || r[0] != byte(bl) {
+				return fmt.Errorf("caller-defined command with a %d-byte body: response %x", bl, r)
+			}
+			ev.Label(fmt.Sprintf("caller-defined-body:%d0s", bl/10))
+			sm.Commands = append(sm.Commands, fmt.Sprintf("Write FRU Data (%d bytes)", bl))
+			continue
+		}
 		if t != nil {
 			e := rapid.SampledFrom(cat).Draw(t, "command")
 			call = e.Prepare(t, w.BMC)
@@ -342,6 +367,6 @@ func TestCoverage(t *testing.T) {
 	for _, s := range hx.Suites9() {
 		need = append(need, "suite:"+s.String()+":session")
 	}
-	ev.RequireLabels(t, 1, append(need, "kg", "no-kg", "no-kg:empty-non-nil-slice", "secrets:password-and-kg-in-one-buffer", "secrets:two-passwords-in-one-buffer")...)
+	ev.RequireLabels(t, 1, append(need, "kg", "no-kg", "no-kg:empty-non-nil-slice", "secrets:password-and-kg-in-one-buffer", "secrets:two-passwords-in-one-buffer", "caller-defined-body:60s", "caller-defined-body:70s", "caller-defined-body:00s", "caller-defined-body:190s")...)
 	_ = ref.AuthSHA1
 }
